@@ -363,6 +363,13 @@ def rule_emitted_numbers(ctx, rule="R5"):
                 continue
             return t
 
+    # the unit table either yields the bare factor (1.0 / 0.001) or, merged with the reading of the literal, the scaled
+    # magnitude itself (`to_seconds(lit) = lit.as_f32()? * factor`); C15/R3 judges its table in both shapes
+    unit_scaled = False
+    if unit is not None:
+        for q in pse.Engine(F, inline=lambda fn, bb: False).run(unit):
+            if q.outcome == "return" and any(x[0] == "bin" and x[1] == "Mul" for x in pse.subterms(q.ret)):
+                unit_scaled = True
     reader_cache = {}
 
     def is_reader(path):
@@ -415,6 +422,8 @@ def rule_emitted_numbers(ctx, rule="R5"):
             return {0.0: "zero", 1.0: "one"}.get(c)
         if leaf(t) and leaf(t)[0] == "lit":
             return "literal"
+        if leaf(t) and leaf(t)[0] == "unit" and unit_scaled:
+            return "seconds"
         if t[0] == "bin" and t[1] == "Mul":
             a, b_ = payload(t[2]), payload(t[3])
             for x, y in ((a, b_), (b_, a)):
@@ -423,7 +432,7 @@ def rule_emitted_numbers(ctx, rule="R5"):
                     if fconst(y) == f32(0.01):
                         return "percent"
                     ly = leaf(y)
-                    if ly and ly[0] == "unit" and ly[1] == lx[1]:
+                    if ly and ly[0] == "unit" and ly[1] == lx[1] and not unit_scaled:
                         return "seconds"
         return None
 
